@@ -319,6 +319,28 @@ func genC03(t *rapid.T) any {
 	if len(rows) > 0 {
 		c.Scale = scale
 	}
+	if !c.Star && c.Shape != "whole" && rapid.IntRange(0, 4).Draw(t, "aggalias") == 0 {
+		// an aggregate shown under the name of the very column it aggregates (SUM(v) AS v): HAVING SUM(v) still is the
+		// aggregate of the source column
+		for i := range c.Aggs {
+			if col := c.Aggs[i].Col; col != "" && !strings.Contains(col, ".") {
+				taken := false
+				for _, o := range c.Aggs {
+					taken = taken || o.Alias == col
+				}
+				for _, g := range c.GroupCols {
+					taken = taken || g == col
+				}
+				for _, as := range c.ShowAs {
+					taken = taken || as == col
+				}
+				if !taken {
+					c.Aggs[i].Alias = col
+					break
+				}
+			}
+		}
+	}
 	c.SQL = renderC03(c)
 	return c
 }
